@@ -121,6 +121,13 @@ theorem C18_notification_applied_async (env : Env) (c : Config) (ctx : Option Ct
           · simp [h1, h2, h3, finish]
   · simp [hv]
 
+/-- A notification really changes the configuration (and says nothing). -/
+example :
+    let out := dispatchInner ⟨none, none⟩ Config.new
+      (.request ⟨"2.0", "set_mode", .obj [("mode", .str "classic")], none⟩)
+    out.1 = { Config.new with mode := 0 } ∧ out.2.isNone ∧ Config.new.mode = 1 := by
+  decide
+
 /-! ## Error codes (stdin entry point; the socket agrees by `C18_sync_eq_async*`) -/
 
 /-- `-32700` exactly for unparsable lines (any deserialisation failure of the request struct,
@@ -268,6 +275,19 @@ example : code? (dispatchInner ⟨none, none⟩ Config.new
     = some (-32602) := by
   rw [C18_code_invalid_params]
   exact ⟨_, _, rfl, rfl, rfl, .inr (.inr ⟨rfl, by simp [Json.get, Json.asU64]⟩)⟩
+
+example : code? (dispatchInner ⟨none, none⟩ Config.new
+    (.request ⟨"1.0", "get_status", .null, some (.num (.pos 1))⟩)).2 = some (-32600) := by decide
+
+/-- `subscribe` on stdin is a reserved name: method not found. -/
+example : code? (dispatchInner ⟨none, none⟩ Config.new
+    (.request ⟨"2.0", "subscribe", .obj [("topic", .str "stats")], some (.num (.pos 1))⟩)).2
+    = some (-32601) := by decide
+
+example : code? (dispatchInner ⟨none, none⟩ Config.new
+    (.request ⟨"2.0", "get_stats", .null, some (.num (.pos 1))⟩)).2 = some (-32603) ∧
+  code? (dispatchInner ⟨some (.obj []), none⟩ Config.new
+    (.request ⟨"2.0", "get_stats", .null, some (.num (.pos 1))⟩)).2 = none := by decide
 
 /-! ## A successful `set_*` is visible in the next status and snapshot
 
@@ -417,6 +437,10 @@ theorem C18_timeout_clamped_init :
   intro mode nq ns mi st t
   exact clamp_inRange t
 
+/-- `from_cli` clamps both ways. -/
+example : (Config.fromCli .classic false false (-1) 0 18446744073709551615).timeout = 60000 ∧
+    (Config.fromCli .classic false false (-1) 0 0).timeout = 1000 := by decide
+
 /-- Every line, either entry point, any hub state: the range is preserved. -/
 theorem C18_timeout_clamped_step (env : Env) (c : Config) (l : Line) (h : InRange c.timeout) :
     InRange (dispatchInner env c l).1.timeout ∧
@@ -527,7 +551,7 @@ example :
        .load 0 .stall 0, .load 0 .minInFlight 0, .load 0 .ackStale 0, .ret 0]).2 =
       [.timeoutApplied 2 5 1000,
        .snapshot 0 ⟨.enhanced, true, true, 32, 3000, 1000⟩] := by
-  decide
+  rfl
 
 /-! ## The stdin and socket entry points agree -/
 
@@ -575,6 +599,47 @@ theorem C18_sync_eq_async_run (c : Config) (ctx : Option Ctx) (ls : List (Env ×
       | some x => exact C18_sync_eq_async el.1 c x el.2 (h el (List.mem_cons_self ..))
     simp only [runAsync, runSync, hstep]
     rw [ih _ (fun el' hel => h el' (List.mem_cons_of_mem _ hel))]
+
+/-- On the socket with a `SubscriptionContext` the three subscription methods are never
+"method not found": they succeed or fail with `-32602` only (`subscribe` needs a string
+`topic` that is `stats` or `priority.window`; `unsubscribe` needs a string `subscription_id`;
+`get_subscription_count` always succeeds). -/
+theorem C18_codes_async_subscription (env : Env) (c : Config) (x : Ctx) (r : Request) (i : Json)
+    (hv : r.jsonrpc = "2.0") (hi : r.id = some i) :
+    (r.method = "subscribe" →
+      (code? (dispatchAsync env c (some x) (.request r)).2.2 = some (-32602) ↔
+        ∀ t, (r.params.get "topic").bind Json.asStr = some t → t ≠ "stats" ∧ t ≠ "priority.window") ∧
+      (code? (dispatchAsync env c (some x) (.request r)).2.2 = none ∨
+        code? (dispatchAsync env c (some x) (.request r)).2.2 = some (-32602))) ∧
+    (r.method = "unsubscribe" →
+      (code? (dispatchAsync env c (some x) (.request r)).2.2 = some (-32602) ↔
+        (r.params.get "subscription_id").bind Json.asStr = none) ∧
+      (code? (dispatchAsync env c (some x) (.request r)).2.2 = none ∨
+        code? (dispatchAsync env c (some x) (.request r)).2.2 = some (-32602))) ∧
+    (r.method = "get_subscription_count" →
+      (dispatchAsync env c (some x) (.request r)).2.2 =
+        some (Response.ok i (.obj [("count", .num (.pos x.hub.entries.length))]))) := by
+  refine ⟨?_, ?_, ?_⟩
+  · intro hm
+    simp only [dispatchAsync, version_lit, hv, ne_eq, not_true_eq_false, if_false, hm, if_true, hi,
+      finish, handleSubscribe]
+    cases ht : (r.params.get "topic").bind Json.asStr with
+    | none => simp [code?, Response.err, ErrObj.new, Control.INVALID_PARAMS_eq]
+    | some t =>
+      by_cases h1 : t = "stats"
+      · simp [h1, isKnownTopic, code?, Response.ok]
+      · by_cases h2 : t = "priority.window"
+        · simp [h2, isKnownTopic, code?, Response.ok]
+        · simp [h1, h2, isKnownTopic, code?, Response.err, ErrObj.new, Control.INVALID_PARAMS_eq]
+  · intro hm
+    have hne : r.method ≠ "subscribe" := by rw [hm]; decide
+    simp only [dispatchAsync, version_lit, hv, ne_eq, not_true_eq_false, if_false, hm, if_true, hi,
+      finish, handleUnsubscribe]
+    cases ht : (r.params.get "subscription_id").bind Json.asStr with
+    | none => simp [code?, Response.err, ErrObj.new, Control.INVALID_PARAMS_eq]
+    | some t => simp [code?, Response.ok]
+  · intro hm
+    simp [dispatchAsync, version_lit, hv, hm, hi, finish, Json.ofNat]
 
 /-- The three excluded methods really differ (so the exclusion is needed, not vacuous). -/
 example :
